@@ -16,7 +16,7 @@ import ChibiVerif.Props.C02
 
 namespace ChibiVerif.Findings.C02
 open ChibiVerif.Fp ChibiVerif.Asm ChibiVerif.X86 ChibiVerif.Spec.Fpu ChibiVerif.FpCodegen ChibiVerif.Spec.FpC11
-open ChibiVerif.Spec.IntSpec ChibiVerif.Props.C02
+open ChibiVerif.Spec.IntSpec ChibiVerif.Props.C02 ChibiVerif.FpChain
 
 /-- a machine state with `%rax = r`, `%xmm0 = x`, empty x87 stack, default control word -/
 def st0 (r x : BitVec 64) : FState :=
@@ -107,5 +107,47 @@ theorem C02_fixed_f80_cells :
     (Gen.CastTable.f80i16.instrs.getLast? = some ⟨"movswl", [.m (-24) "%rsp", .r "%eax"]⟩) ∧
     (Gen.CastTable.f80u16.instrs.getLast? = some ⟨"movzwl", [.m (-24) "%rsp", .r "%eax"]⟩) ∧
     (Gen.CastTable.f80u32.instrs.contains ⟨"fistpq", [.m (-24) "%rsp"]⟩ = true) := by decide
+
+/-! ### a "round-trip cast" peephole (seeded change C02c; not in /repo): what dropping `(T)(F)x` would do
+
+`(int)(float)x` is not `x`.  `elided` is the code a compiler prints that treats the two conversions as cancelling: the operand's
+code and nothing else (in the model: the nest with no `ND_CAST` node).  On 2^24 + 1 it leaves 16777217 in %eax; the code
+`gen_expr` really prints — one `cast()` per node, `C02_cast_chain` — leaves 16777216, the C11 value on every FPU that meets the
+contract (`C02_roundtrip_not_identity`).  Same for `(long)(double)x` at 2^53 + 1. -/
+
+/-- what the ND_CAST arm of /repo prints for `(int)(float)e` and `(long)(double)e`: both cells, in order -/
+theorem C02_roundtrip_code (code : List Asm.Line) :
+    (nest (.int .i32) code [.f32, .int .i32]).gen = code ++ [Gen.CastTable.i32f32] ++ [Gen.CastTable.f32i32] ∧
+    (nest (.int .i64) code [.f64, .int .i64]).gen = code ++ [Gen.CastTable.i64f64] ++ [Gen.CastTable.f64i64] :=
+  ⟨rfl, rfl⟩
+
+/-- the elided code on the witnesses: %rax still holds the operand, which is not the C11 value of the chain -/
+theorem C02_elided_roundtrip_wrong :
+    (∃ s', Fp.run Toy.toy (instrsOf (nest (.int .i32) [] []).gen) (st0 16777217#64 0) = some s' ∧
+      Holds (.int .i32) s' (.int 16777217) ∧ ¬ Holds (.int .i32) s' (.int 16777216) ∧
+      convertChain Toy.toy s'.cw [.f32, .int .i32] (.int 16777217) = some (.int 16777216)) ∧
+    (∃ s', Fp.run Toy.toy (instrsOf (nest (.int .i64) [] []).gen) (st0 9007199254740993#64 0) = some s' ∧
+      Holds (.int .i64) s' (.int 9007199254740993) ∧ ¬ Holds (.int .i64) s' (.int 9007199254740992) ∧
+      convertChain Toy.toy s'.cw [.f64, .int .i64] (.int 9007199254740993) = some (.int 9007199254740992)) := by
+  have h32 : Holds (.int .i32) (st0 16777217#64 0) (.int 16777217) := by
+    simp [Holds, RInt, ITy.inRange, ITy.min, ITy.max, ITy.signed, ITy.bits, State.get, st0]
+  have h64 : Holds (.int .i64) (st0 9007199254740993#64 0) (.int 9007199254740993) := by
+    simp [Holds, RInt, ITy.inRange, ITy.min, ITy.max, ITy.signed, ITy.bits, State.get, st0]
+  obtain ⟨a1, a2, a3⟩ := (C02_roundtrip_not_identity Toy.toy [] (st0 16777217#64 0) _ rfl).1 h32
+  obtain ⟨b1, b2, b3⟩ := (C02_roundtrip_not_identity Toy.toy [] (st0 9007199254740993#64 0) _ rfl).2 h64
+  exact ⟨⟨_, rfl, h32, a2, a3⟩, ⟨_, rfl, h64, b2, b3⟩⟩
+
+/-- the code of /repo on the same witnesses -/
+theorem C02_roundtrip_rounds_witness :
+    (∃ s', Fp.run Toy.toy (instrsOf (nest (.int .i32) [] [.f32, .int .i32]).gen) (st0 16777217#64 0) = some s' ∧
+      Holds (.int .i32) s' (.int 16777216)) ∧
+    (∃ s', Fp.run Toy.toy (instrsOf (nest (.int .i64) [] [.f64, .int .i64]).gen) (st0 9007199254740993#64 0) = some s' ∧
+      Holds (.int .i64) s' (.int 9007199254740992)) := by
+  have h32 : Holds (.int .i32) (st0 16777217#64 0) (.int 16777217) := by
+    simp [Holds, RInt, ITy.inRange, ITy.min, ITy.max, ITy.signed, ITy.bits, State.get, st0]
+  have h64 : Holds (.int .i64) (st0 9007199254740993#64 0) (.int 9007199254740993) := by
+    simp [Holds, RInt, ITy.inRange, ITy.min, ITy.max, ITy.signed, ITy.bits, State.get, st0]
+  exact ⟨((C02_roundtrip_not_identity Toy.toy [] (st0 16777217#64 0) _ rfl).1 h32).1,
+         ((C02_roundtrip_not_identity Toy.toy [] (st0 9007199254740993#64 0) _ rfl).2 h64).1⟩
 
 end ChibiVerif.Findings.C02
